@@ -1111,7 +1111,8 @@ func (c *Canonicalizer) writePhi(w *strings.Builder, i *ssa.Phi, instr ssa.Instr
 	type edge struct {
 		predID    string
 		predIndex int
-		value     string
+		val       ssa.Value
+		origIndex int
 	}
 	edges := make([]edge, 0, len(i.Edges))
 	preds := i.Block().Preds
@@ -1133,14 +1134,7 @@ func (c *Canonicalizer) writePhi(w *strings.Builder, i *ssa.Phi, instr ssa.Instr
 			}
 		}
 
-		valStr := c.NormalizeOperand(val, instr)
-		if overrides, ok := c.virtualPhiConstants[i]; ok {
-			if ov, ok := overrides[j]; ok {
-				valStr = ov
-			}
-		}
-
-		edges = append(edges, edge{predID: predID, predIndex: idx, value: valStr})
+		edges = append(edges, edge{predID: predID, predIndex: idx, val: val, origIndex: j})
 	}
 
 	// Deterministic sorting logic for Phi edges
@@ -1153,8 +1147,17 @@ func (c *Canonicalizer) writePhi(w *strings.Builder, i *ssa.Phi, instr ssa.Instr
 		return edges[a].predID < edges[b].predID
 	})
 
+	// Operands are named lazily on first mention, so they must be normalized in the canonical
+	// (sorted) edge order, not in go/ssa's predecessor order: the latter follows the source order
+	// of the branches, and exchanging then/else would otherwise permute the register names.
 	for _, e := range edges {
-		w.WriteString(fmt.Sprintf(" [%s: %s]", e.predID, e.value))
+		valStr := c.NormalizeOperand(e.val, instr)
+		if overrides, ok := c.virtualPhiConstants[i]; ok {
+			if ov, ok := overrides[e.origIndex]; ok {
+				valStr = ov
+			}
+		}
+		w.WriteString(fmt.Sprintf(" [%s: %s]", e.predID, valStr))
 	}
 }
 
